@@ -328,6 +328,15 @@ def field_of(e):
     return None
 
 
+# objects are zero-filled at birth: the functions of these units rely on it for every field their constructors do not store
+_run_clauses = run
+
+
+def run(prog, rep):
+    _run_clauses(prog, rep)
+    from plint.wiring import check_zero_init
+    check_zero_init(rep, "C15.2", prog, ['phashtable.c', 'plist.c'], 4)
+
 # generic robustness battery: renaming every local/parameter in these files must not change any verdict
 RENAME_LOCALS = ['src/phashtable.c', 'src/plist.c']
 
